@@ -1,9 +1,14 @@
 /-
   Model of (*Schema).UnmarshalJSON (schema.go:380-538) + unmarshalStructWithMap (util.go) on parsed
   JSON: boolean schemas, the type / items / dependencies / const unions, the `integer` helper with
-  its int32 window, unknown keys collected into Extra.  Keys are matched *exactly* (the behaviour the
-  properties describe); `foldedKeys` is the decidable class on which encoding/json's case-insensitive
-  fallback makes the real code differ (known finding D4).
+  its int32 window, unknown keys collected into Extra.  Keys are matched exactly, else case-insensitively
+  like encoding/json does (`canonKey`, `setMember`): a key that is no keyword but equals one up to letter
+  case is decoded into that keyword's field (with its failure modes) AND kept in Extra, because
+  unmarshalStructWithMap collects every key that is not *exactly* a JSON name of the struct.  This is known
+  finding D4, now behaviour of the model; `isFoldedKey` / `hasFoldedKey` are the decidable class of such
+  keys (hypothesis H_D4 of the theorems about unknown keys is `isFoldedKey k = false`).  An exact key and a
+  case variant of it in the same object are assigned in document order (encoding/json's merging into an
+  existing map / pointer value is not modelled).
 -/
 import JSV.Model.Schema
 namespace JSV
@@ -22,8 +27,10 @@ def knownKeys : List String := [
   "format", "type", "items", "dependencies"]
 
 /-- Go field names of the wrapper struct and of Schema, which encoding/json also matches
-    case-insensitively when a field has json:"-"?  No: "-" fields are never matched. -/
-def foldEq (a b : String) : Bool := a.toLower == b.toLower
+    case-insensitively when a field has json:"-"?  No: "-" fields are never matched.
+    Equality up to ASCII letter case, `a.toLower == b.toLower` (`Inv.foldEq_eq_toLower`), written on the character
+    lists so that it reduces on literals (`decide`). -/
+def foldEq (a b : String) : Bool := a.toList.map Char.toLower == b.toList.map Char.toLower
 
 /-- a key that is not a keyword but that encoding/json would still route to a keyword's field -/
 def isFoldedKey (k : String) : Bool := !knownKeys.contains k && knownKeys.any (foldEq k)
@@ -228,9 +235,21 @@ def setField (rec : URec) (n : Node) (st : Store) (k : String) (v : Json) : Res 
     | _ => .err
   | _ => .ok ({ n with extra := some ((n.extra.getD []) ++ [(k, v)]) }, st)
 
+/-- the keyword whose struct field encoding/json routes key `k` to: `k` itself when it is a keyword, otherwise the first keyword
+    equal to it up to letter case, otherwise `k` (no field: the member only lands in Extra) -/
+def canonKey (k : String) : String :=
+  if knownKeys.contains k then k else (knownKeys.find? (foldEq k)).getD k
+
+/-- one object member as json.Unmarshal + unmarshalStructWithMap treat it: the value goes to the field of `canonKey k`
+    (with that field's failure modes), and a key that is not exactly a JSON name of the struct is also kept in Extra -/
+def setMember (rec : URec) (n : Node) (st : Store) (k : String) (v : Json) : Res (Node × Store) :=
+  if canonKey k == k then setField rec n st k v
+  else Res.bind (setField rec n st (canonKey k) v) fun (n, st) =>
+    .ok ({ n with extra := some ((n.extra.getD []) ++ [(k, v)]) }, st)
+
 def setFields (rec : URec) : List (String × Json) → Node → Store → Res (Node × Store)
   | [], n, st => .ok (n, st)
-  | (k, v) :: rest, n, st => Res.bind (setField rec n st k v) fun (n, st) => setFields rec rest n st
+  | (k, v) :: rest, n, st => Res.bind (setMember rec n st k v) fun (n, st) => setFields rec rest n st
 
 /-- one level of UnmarshalJSON (open recursion) -/
 def unmarshalStep (rec : URec) (j : Json) (st : Store) : Res (NodeId × Store) :=
